@@ -78,11 +78,19 @@ theorem apply_creat_new {fs : Fs} {p : Bytes} (h : fs.lookup p = none) (hdir : f
   have hst : fs.stat p = none := by unfold Fs.stat; rw [h]
   simp only [Fs.apply, hdir, hst]; rfl
 
-/-- `rename a b` in the model: needs `a` to be there and the directory of `b` to be a directory; whatever is at `b` is replaced -/
+/-- the name is not that of a directory -/
+def NotDir (fs : Fs) (q : Bytes) : Prop := ∀ m, fs.lookup q ≠ some (.dir m)
+
+theorem notDir_of_none {fs : Fs} {q : Bytes} (h : fs.lookup q = none) : NotDir fs q := fun m e => by rw [h] at e; cases e
+theorem notDir_of_file {fs : Fs} {q b : Bytes} {m : Nat} (h : fs.lookup q = some (.file b m)) : NotDir fs q :=
+  fun m e => by rw [h] at e; cases e
+
+/-- `rename a b` in the model: needs `a` to be there, the directory of `b` to be a directory, and `b` not to be a directory (a file is not
+    renamed onto a directory: EISDIR); whatever else is at `b` is replaced -/
 theorem apply_rename_file {fs : Fs} {a b : Bytes} {n : Node} (h : fs.lookup a = some n)
-    (hdir : fs.dirExists (parentOf b) = true) :
-    fs.apply (.rename a b) = .ok ((fs.erase a).set b n) := by
-  simp only [Fs.apply, h, hdir]; rfl
+    (hdir : fs.dirExists (parentOf b) = true) (hnd : NotDir fs b) :
+    fs.apply (.rename a b) = .ok ((fs.erase a).set b n) :=
+  C18.apply_rename_nondir h hdir hnd
 
 /-! ### `Backup::make_backup_for`, closed form -/
 
@@ -97,7 +105,7 @@ theorem dirsThere_flat (fs : Fs) {p : Bytes} (h : ∀ c ∈ p, c ≠ SLASHB) : D
 theorem run_makeBackupFor_file (o : Options) {s : DState} {p b : Bytes} {m : Nat} (hcwd : s.cwd = [])
     (h : s.fs.lookup p = some (.file b m)) (hnot : s.backedUp.contains (backupName o p) = false)
     (hdirs : DirsThere s.fs (backupName o p)) (hdir : s.fs.dirExists (parentOf (backupName o p)) = true)
-    (hf : s.faultAt = none) :
+    (hnd : NotDir s.fs (backupName o p)) (hf : s.faultAt = none) :
     (makeBackupFor o p).run s =
       (.ok (), { s with backedUp := s.backedUp ++ [backupName o p],
                         fs := (s.fs.erase p).set (backupName o p) (.file b m),
@@ -112,7 +120,7 @@ theorem run_makeBackupFor_file (o : Options) {s : DState} {p b : Bytes} {m : Nat
   have hst : (s.fs.stat p).isSome = true := by rw [Fs.stat_of_file h]; rfl
   rw [if_pos hst]
   exact doOp_run_ok (s := { s with backedUp := s.backedUp ++ [backupName o p], opCount := s.opCount + (dirPrefixes (backupName o p)).length })
-    hf (apply_rename_file h hdir)
+    hf (apply_rename_file h hdir hnd)
 
 /-! ### writing to a free path -/
 
@@ -148,7 +156,7 @@ theorem run_writePatchedResult_backup {s : DState} {p b : Bytes} {m0 : Nat} (o :
     (hdir : s.fs.dirExists (parentOf p) = true)
     (hnot : s.backedUp.contains (backupName o p) = false)
     (hdirs : DirsThere s.fs (backupName o p)) (hbdir : s.fs.dirExists (parentOf (backupName o p)) = true)
-    (hf : s.faultAt = none) :
+    (hnd : NotDir s.fs (backupName o p)) (hf : s.faultAt = none) :
     (writePatchedResult o pt p perm true content).run s =
       (.ok (), { s with backedUp := s.backedUp ++ [backupName o p],
                         fs := ((s.fs.erase p).set (backupName o p) (.file b m0)).set p (.file content m),
@@ -157,7 +165,7 @@ theorem run_writePatchedResult_backup {s : DState} {p b : Bytes} {m0 : Nat} (o :
   have hne : p ≠ backupName o p := fun e => backupName_ne o p e.symm
   unfold writePatchedResult
   simp only [hfmt, hop, Bool.false_eq_true, if_false, Bool.false_and, hnm, if_true]
-  rw [run_bind, run_makeBackupFor_file o hcwd h hnot hdirs hbdir hf]
+  rw [run_bind, run_makeBackupFor_file o hcwd h hnot hdirs hbdir hnd hf]
   simp only []
   rw [run_bind, run_makeWritable_noFix hnf]
   simp only []
@@ -190,15 +198,16 @@ theorem rejectPath_default (o : Options) (p : Bytes) (h : o.rejectFile = []) : r
   unfold rejectPath; rw [h]; rfl
 
 /-- the first rejects of a run written to a path where nothing is: a new file (mode `0666 & ~umask`) with exactly these bytes -/
-theorem run_writeRejects_new {s : DState} {rej : Bytes} (b : Bytes) (hcwd : s.cwd = [])
+theorem run_writeRejects_new (o : Options) {s : DState} {rej : Bytes} (b : Bytes) (hcwd : s.cwd = [])
     (hnot : s.rejWritten.contains rej = false) (h : s.fs.lookup rej = none)
     (hdir : s.fs.dirExists (parentOf rej) = true) (hf : s.faultAt = none) :
-    (writeRejects rej b).run s =
+    (writeRejects o rej b).run s =
       (.ok (), { s with rejWritten := s.rejWritten ++ [rej],
                         fs := s.fs.set rej (.file b (0o666 - (0o666 &&& s.fs.umask))), trace := s.trace ++ writeOps rej b,
                         opCount := s.opCount + (writeOps rej b).length }) := by
   unfold writeRejects
-  rw [run_bind, openRejects_run, if_neg (by rw [hnot]; simp), absPath_nil hcwd,
+  rw [run_bind, openRejects_run, if_neg (by rw [hnot]; simp),
+    if_neg (by rw [inWayAt_of_none (by rw [absPath_nil hcwd]; exact h)]; simp), absPath_nil hcwd,
     doOp_run_ok (s := { s with rejWritten := s.rejWritten ++ [rej] }) hf (apply_creat_new h hdir)]
   simp only []
   rw [run_opWrite]
@@ -339,12 +348,13 @@ macro_rules | `(tactic| base_run [$ls,*]) => `(tactic| (
 
 /-- **a clean section with `-b`, real run**: the target's old bytes and mode are found under the backup name, the target holds the
     rendered output with its old mode, the backup name is recorded; the trace is `rename`, `creat`, (`write`,) `chmod` after the
-    two anonymous temporaries -/
+    two anonymous temporaries (`hnd`: the backup name is not that of a directory — a file is not renamed onto a directory) -/
 theorem processSection_backup (H : BaseSection o fmt s p bytes m patch0 patch2 info par1 par2 r)
     (hfail : r.failed = 0) (hmsgs : r.msgs = [])
     (hb : o.saveBackup = true) (hreal : o.dryRun = false) (hdir : s.fs.dirExists (parentOf p) = true)
     (hnot : s.backedUp.contains (backupName o p) = false)
-    (hdirs : DirsThere s.fs (backupName o p)) (hbdir : s.fs.dirExists (parentOf (backupName o p)) = true) :
+    (hdirs : DirsThere s.fs (backupName o p)) (hbdir : s.fs.dirExists (parentOf (backupName o p)) = true)
+    (hnd : NotDir s.fs (backupName o p)) :
     ∃ s', (processSection o fmt).run s = (.ok true, s') ∧
       s'.fs = ((s.fs.erase p).set (backupName o p) (.file bytes m)).set p (.file (render o.newlineOutput r.out) m) ∧
       s'.trace = s.trace ++ [.tmpCreate, .tmpUnlink] ++ [.tmpCreate, .tmpUnlink] ++
@@ -353,7 +363,7 @@ theorem processSection_backup (H : BaseSection o fmt s p bytes m patch0 patch2 i
       s'.hadFailure = s.hadFailure ∧ s'.out = s.out ++ [.file p false] ∧
       SectionEnd s s' p par2 := by
   base_run [hfail, hmsgs, hb, hreal,
-    (fun s' pt c perm => @run_writePatchedResult_backup s' p bytes m o pt c m perm), hdir, hnot, hdirs, hbdir, H.pathNe]
+    (fun s' pt c perm => @run_writePatchedResult_backup s' p bytes m o pt c m perm), hdir, hnot, hdirs, hbdir, hnd, H.pathNe]
   refine ⟨_, rfl, rfl, rfl, rfl, rfl, ?_, ⟨rfl, rfl, rfl, ?_, H.cwd.symm, H.noFault.symm, rfl, rfl, rfl, rfl⟩⟩
   · simp
   · generalize s.tty = t
@@ -415,7 +425,7 @@ theorem processSection_rejected (H : BaseSection o fmt s p bytes m patch0 patch2
     exact hdir
   base_run [hfb, hfe, hnb, hbb, hreal, ↓run_failNow, rejectPath_default o p hrf,
     (fun s' => @run_ensureParentDirs_there s' (p ++ str ".rej") hrne), hdirs,
-    (fun s' b => @run_writeRejects_new s' (p ++ str ".rej") b), hnot, hfree, hrdir,
+    (fun s' b => @run_writeRejects_new o s' (p ++ str ".rej") b), hnot, hfree, hrdir,
     (fun s' pt c perm => @run_writePatchedResult_plain s' p bytes m o pt c m perm), hlk, hde, Section.Fs.isRoot_set]
   refine ⟨_, rfl, rfl, ?_, rfl, rfl, rfl, ?_, ⟨rfl, rfl, rfl, ?_, H.cwd.symm, H.noFault.symm, rfl, rfl, rfl, rfl⟩⟩
   · simp [List.append_assoc]
